@@ -58,6 +58,8 @@ type checker struct {
 	crossSeen   bool
 	crossFirst  *scenario
 	crossOut    outcome
+	envLoads    int64
+	dotenvRuns  int64
 }
 
 // eval runs one scenario and reports whatever the oracle finds.
@@ -102,6 +104,24 @@ func (c *checker) eval(s *structSpec, sc *scenario, nontrivial bool) outcome {
 		c.st.errOutcomes["invalid-expected"]++
 	default:
 		c.st.errOutcomes["error-unexpected"]++
+	}
+	// every fourth load from the environment that set variables is run again with a .env file in the working directory that
+	// redefines those very variables: nothing may change
+	if !sc.DotEnv && out.API == "LoadFromEnvironment" && out.EnvVars > 0 && out.Panic == "" {
+		c.envLoads++
+		if c.envLoads%4 == 0 {
+			twin := *sc
+			twin.DotEnv = true
+			o2 := c.run.run(s, &twin)
+			c.st.evaluations++
+			c.dotenvRuns++
+			switch {
+			case strings.HasPrefix(o2.Panic, "ENGINE:"):
+				c.rep.EngineError("%s (%s %s, .env)", o2.Panic, sc.Struct, sc.Part)
+			case !reflect.DeepEqual(o2.Got, out.Got) || (o2.Err == nil) != (out.Err == nil):
+				c.rep.Violation("precedence:a-dotenv-file-overrides-variables-set-in-the-environment", map[string]any{"scenario": &twin, "loaded_without_the_file": fmt.Sprint(out.Got), "loaded_with_the_file": fmt.Sprint(o2.Got), "error_without": fmt.Sprint(out.Err), "error_with": fmt.Sprint(o2.Err)})
+			}
+		}
 	}
 	if sc.Target >= 0 && sc.Target < len(out.Winners) {
 		w := out.Winners[sc.Target]
@@ -230,6 +250,7 @@ func TestC15(t *testing.T) {
 	rep.Coverage["distinct_observed_outcomes"] = len(st.winners) + len(st.errOutcomes)
 	rep.Coverage["observed_error_outcomes"] = st.errOutcomes
 	rep.Coverage["cases_not_generated_because_ambiguous"] = st.skippedAmbig
+	rep.Coverage["loads_repeated_with_a_dotenv_file_redefining_the_set_variables"] = c.dotenvRuns
 	rep.Coverage["exhaustive"] = true
 	fam := map[string]any{}
 	for _, s := range structs {
@@ -750,6 +771,19 @@ func (c *checker) replay(path string) {
 		return
 	}
 	c.run.detailed = true
+	if sc.DotEnv { // a differential case: the same load without and with the .env file
+		base := *sc
+		base.DotEnv = false
+		o1, o2 := c.run.run(s, &base), c.run.run(s, sc)
+		fmt.Printf("without the .env file: %v (error: %v)\nwith it:               %v (error: %v)\n", o1.Got, o1.Err, o2.Got, o2.Err)
+		if !reflect.DeepEqual(o1.Got, o2.Got) || (o1.Err == nil) != (o2.Err == nil) {
+			fmt.Printf("VIOLATION property=C15 replay=%s signature=precedence:a-dotenv-file-overrides-variables-set-in-the-environment\n", path)
+			ev.ExitCode = 1
+		} else {
+			fmt.Println("replay: no violation")
+		}
+		return
+	}
 	out := c.run.run(s, sc)
 	if out.Panic != "" {
 		fmt.Printf("replay: %s\n", out.Panic)
